@@ -243,6 +243,19 @@ def dict_part(ctx, cfg):
              if p[:len(q)] != q]
     ctx.claim('C17.assoc_get', AND([r is d, EQ(get_in(d, q), v)] + frame),
               sig='assoc', info=info)
+    # a falsy value (solver-chosen kind, None included) written at q is read
+    # back as itself even when the caller passes a default, and is enumerated
+    FALSY = [None, 0, '', False, []]
+    w = FALSY[ctx.choice('falsy', len(FALSY))]
+    df = copy.deepcopy(d0)
+    assoc_path(df, q, w)
+    got = get_in(df, q, 'dflt')
+    listed = dict(dict_to_paths((), df))
+    ctx.claim('C17.assoc_get', (got is w or (got == w and type(got) is type(w)))
+              and q in listed and (listed[q] is w or listed[q] == w),
+              sig='assoc-falsy', info=lambda: dict(path=q, tree=d0,
+                                                   written=repr(w),
+                                                   read=repr(got)))
     # assoc_in agrees with assoc_path (on a copy, result only)
     r2 = assoc_in(copy.deepcopy(d0), q, v)
     same = [set(dict(dict_to_paths((), r2))) == set(dict(dict_to_paths((), d)))]
